@@ -249,8 +249,10 @@ impl Expression for Op {
                 // an undefined operand (e.g. a path that cannot exist) reads as `null` at runtime
                 let mut lhs_def = lhs_def.upgrade_undefined();
                 if lhs_def.is_null() || lhs_value == Some(Value::Boolean(false)) {
-                    // lhs is always "false"
-                    self.rhs.apply_type_info(&mut state)
+                    // lhs is always "false": the value is the rhs's, but the lhs was evaluated first
+                    // (it may fail or return)
+                    let rhs_def = self.rhs.apply_type_info(&mut state);
+                    lhs_def.with_kind(K::never()).union(rhs_def)
                 } else if !(lhs_def.contains_null() || lhs_def.contains_boolean())
                     || lhs_value == Some(Value::Boolean(true))
                 {
